@@ -349,6 +349,60 @@ fn build(case: &Value) -> (String, Expectation) {
                     model.insert(var, Cmd { program: program.to_string(), ..Cmd::default() });
                 }
             }
+            "interp_func" => {
+                // a string variable that a helper reads only through interpolation; it is re-assigned
+                // before the helper is called, so the child must see the new text
+                let (old, new) = (st["old"].as_str().unwrap(), st["new"].as_str().unwrap());
+                let key = st["key"].as_str();
+                let use_ = match key {
+                    Some(k) => format!("{}.env({}, \"{{t{fi}}}\")", recv(var), strlit(k)),
+                    None => format!("{}.arg(\"{{t{fi}}}\")", recv(var)),
+                };
+                src += &format!(
+                    "make t{fi} get {}\ndo w{fi}() start\n    {use_}\n    return 0\nend\nt{fi} get {}\nmake x{fi} get w{fi}()\n",
+                    strlit(old),
+                    val_lit(&json!(new), computed)
+                );
+                fi += 1;
+                let op = match key {
+                    Some(k) => json!({"k": "env", "key": k, "v": new}),
+                    None => json!({"k": "arg", "v": new}),
+                };
+                if live
+                    && let Some(c) = model.get_mut(&var)
+                    && let Err(why) = apply(c, &op)
+                {
+                    exp.ending = Some(vec!["Invalid process configuration"]);
+                    *exp.refusals.entry(why).or_default() += 1;
+                }
+            }
+            "nested_reset" => {
+                // the builder is used at the top of every outer round and replaced inside an inner loop:
+                // whether that assignment is live is only known after the analysis has gone round both loops
+                let program = st["program"].as_str().unwrap();
+                let r_ = recv(var);
+                src += &format!(
+                    "make a{fi} get 0\njasi (a{fi} small pass 2) start\n    a{fi} get a{fi} add 1\n    {r_}.arg(\"round\")\n    make b{fi} get 0\n    jasi (b{fi} small pass 2) start\n        b{fi} get b{fi} add 1\n        {r_} get command({})\n    end\nend\n",
+                    val_lit(&json!(program), computed)
+                );
+                fi += 1;
+                if live && model.contains_key(&var) {
+                    model.insert(var, Cmd { program: program.to_string(), ..Cmd::default() });
+                }
+            }
+            "env_pops" => {
+                // key and value come out of one array: the key is the first operand, so it is popped first
+                let (k, v) = (st["key"].as_str().unwrap(), st["v"].as_str().unwrap());
+                src += &format!("make kv{fi} get [{}, {}]\n{}.env(kv{fi}.pop(), kv{fi}.pop())\n", strlit(v), strlit(k), recv(var));
+                fi += 1;
+                if live
+                    && let Some(c) = model.get_mut(&var)
+                    && let Err(why) = apply(c, &json!({"k": "env", "key": k, "v": v}))
+                {
+                    exp.ending = Some(vec!["Invalid process configuration"]);
+                    *exp.refusals.entry(why).or_default() += 1;
+                }
+            }
             "reset_func" => {
                 // a helper whose only effect is to replace the captured builder; nobody reads its result
                 let program = st["program"].as_str().unwrap();
@@ -532,6 +586,11 @@ impl Engine for C15 {
                 10 | 11 => steps.push(json!({"s": "loop_op", "var": var, "op": gen_op(&mut r), "n": r.range(1, 3), "computed": computed})),
                 12 | 13 => steps.push(json!({"s": "via_func", "var": var, "op": gen_op(&mut r), "computed": computed})),
                 14 => steps.push(json!({"s": r.pick(&["touch_func", "cap_func", "shadow_func"]), "var": var, "op": gen_op(&mut r), "computed": computed})),
+                17 if r.chance(50) => match r.below(3) {
+                    0 => steps.push(json!({"s": "interp_func", "var": var, "old": word(&mut r, 3), "new": word(&mut r, 3), "key": if r.chance(40) { json!(r.pick(&["K", "A", "k"])) } else { Value::Null }, "computed": computed})),
+                    1 if var >= slots => steps.push(json!({"s": "nested_reset", "var": var, "program": program(&mut r), "computed": computed})),
+                    _ => steps.push(json!({"s": "env_pops", "var": var, "key": r.pick(&["K", "PATH", "A", "k"]), "v": word(&mut r, 3)})),
+                },
                 18 if var >= slots => {
                     // replace the builder, then (usually) something that only looks like another write
                     steps.push(json!({"s": r.pick(&["reassign", "reassign", "block_reassign", "reset_func"]), "var": var, "program": program(&mut r), "computed": computed}));
